@@ -322,6 +322,12 @@ def generate(repo, path):
     lines += ['/-- the state queries that do NOT take the lock: (function, site, data member read, declared type of that member) -/',
               'def lockFreeReads : List (String × String × String × String) := [',
               ',\n'.join('  (%s, %s, %s, %s)' % tuple(lean_str(x) for x in r) for r in reads), ']']
+    early = [(key, site, t) for key, site, sts in tabs for t, g in sts
+             if re.search(r'\block\s*\.\s*(unlock|release|swap)\s*\(', t) or re.search(r'std::move\(\s*lock\s*\)', t)
+             or re.search(r'^lock\s*=', t)]
+    lines += ['', '/-- statements of lock-taking functions that give the lock up before the end of its scope (unlock / release / swap / move) -/',
+              'def earlyUnlocks : List (String × String × String) := [',
+              ',\n'.join('  (%s, %s, %s)' % (lean_str(a), lean_str(b), lean_str(c)) for a, b, c in early), ']']
     lines += ['end Tromp.Gen', '']
     new = '\n'.join(lines)
     old = open(path).read() if os.path.exists(path) else None
